@@ -236,8 +236,30 @@ def rule_e(repo, chk):
         chk.ob('C20.e', ok, x, 'the loaded project is returned unchanged')
 
 
+def rule_f(repo, chk):
+    chk.clause('C20.f', 'type discipline of paths: a pathlib.Path is never compared (==, !=) with a path in string form - such a test is '
+                        'constantly false/true and silently switches off what it guards (here: "skip the project directory, it was searched '
+                        'already"); package-wide, with the project path known to be a Path from Project.__init__')
+    from ..lib import str_path_comparisons, path_kind
+    sites, sa = str_path_comparisons(repo)
+    chk.ob('C20.f', sa.get(('jedi.api.project', '_path')) == 'path', repo.find('jedi.api.project', 'Project.__init__'),
+           'Project._path is a pathlib.Path (assigned from Path(..).absolute())', str(sa.get(('jedi.api.project', '_path'))))
+    for f, q, c, a, b in sites:
+        chk.ob('C20.f', False, c, 'comparison `%s` in %s relates values of one kind' % (short(c, 60), q),
+               'left is a %s, right is a %s: a Path never equals a str' % (a, b), key='str-path|%s|%s' % (q, norm(c)))
+    # the detector itself must still recognise the idiom (the expected count on a healthy tree is zero)
+    probe = ast.parse("def probe(self, sys_path):\n    path = Path(x).absolute()\n    return [p for p in sys_path if p != path]\n").body[0]
+    for n in ast.walk(probe):
+        for ch in ast.iter_child_nodes(n):
+            ch._parent = n
+    from ..core import own_nodes as _own
+    hit = [c for c in ast.walk(probe) if isinstance(c, ast.Compare) and path_kind(probe, c.left) == 'str' and path_kind(probe, c.comparators[0]) == 'path']
+    chk.ob('C20.f', bool(hit), None, 'self-check: the detector classifies `p != path` (p from sys_path, path = Path(..).absolute()) as str vs Path', key='probe')
+    chk.notes['C20.f comparisons examined'] = len(sites)
+
+
 def describe(chk):
     chk.undecided('which of two same-named modules an import resolves to (run-time); default project discovery heuristics')
 
 
-RULES = [('C20.a', rule_a), ('C20.b', rule_b), ('C20.c', rule_c), ('C20.d', rule_d), ('C20.e', rule_e)]
+RULES = [('C20.a', rule_a), ('C20.b', rule_b), ('C20.c', rule_c), ('C20.d', rule_d), ('C20.e', rule_e), ('C20.f', rule_f)]
